@@ -177,9 +177,11 @@ def run_check(prop, tier, seed, a, t0):
         if led is not None:
             same = all(led["sources"].get(f) == s for f, s in shas.items()) and set(led["sources"]) == set(shas)
             if same:
-                missing = set(led["obligations"]) - set(ledger_now)
-                failing_now = {v[0] for v in undecided} | {v["obligation"] for v in violations if "obligation" in v}
-                lost = [m for m in missing if m not in failing_now]
+                # compared without the path suffix (the naming of symbolic paths is the engine's business)
+                strip = lambda o: o.rsplit("/", 1)[0]
+                now_names = {strip(o) for o in ledger_now}
+                failing_now = {strip(v[0]) for v in undecided} | {strip(v["obligation"]) for v in violations if "obligation" in v}
+                lost = sorted({strip(m) for m in led["obligations"]} - now_names - failing_now)
                 if lost and not violations and not undecided:
                     checker_failure.append("obligations of the committed ledger disappeared although the sources are "
                                            "unchanged: %s" % lost[:3])
